@@ -16,6 +16,10 @@ def subsequence(res, G, L, residue, live, prog, k, rate):
     """Every logged trace must describe, faithfully, a completion - in order."""
     bad = []
     labels = prog["labels"]
+    noff = sum(1 for g in G if g.get("off_thread"))
+    if noff:
+        res.count("completions_on_another_thread", noff)
+        G = [g for g in G if not g.get("off_thread")]
     corner = [g for g in G if g.get("reyield_none_at_throw_site")]
     if corner:
         # residual corner of the thrown-at-yield repair (listed finding): judge the rest without these frames
@@ -87,7 +91,7 @@ def work(p):
         if spec.get("literal"):
             prog = dict(spec["literal"], name=spec["name"])
         else:
-            prog = gp.build(rng, spec["name"], nfuncs=spec.get("nfuncs", 12), opts={"ensure": ["genfunc", "genmethod"], "prestart": spec.get("prestart", False)},
+            prog = gp.build(rng, spec["name"], nfuncs=spec.get("nfuncs", 12), opts={"ensure": ["genfunc", "genmethod"], "prestart": spec.get("prestart", False), "threads": spec.get("threads", False)},
                             live=spec.get("live", 4), abandon=spec.get("abandon", False))
             if spec.get("prestart"):
                 res.count("prestart_programs")
@@ -129,16 +133,18 @@ def run(ck):
     for i in range(nprog):
         r = ck.rng("prog", i)
         sp.append({"name": f"vfprog18_{ck.seed}_{i}", "seed": f"C18:{ck.seed}:{i}", "k": r.choice([0, 3]), "nfuncs": r.choice([8, 12, 16]),
-                   "live": r.choice([2, 4, 6]), "abandon": r.random() < 0.05, "prestart": i % 6 == 2, "rates": RATES,
+                   "live": r.choice([2, 4, 6]), "abandon": r.random() < 0.05, "prestart": i % 6 == 2, "threads": i % 6 == 4, "rates": RATES,
                    "rng_seeds": [r.randrange(10**6) for _ in range(nseeds)]})
     n = core.NPROC * (2 if quick else 16)
     pin = [dict(s, rates=s.get("rates", [2]), rng_seeds=s.get("rng_seeds", list(range(8)))) for s in c02.pinned("C18")]
-    loop_src = ("class Err(Exception):\n    pass\n\n\ndef parse(i):\n    return i\n\n\ndef store(v):\n    return None\n\n\ndef a1(v):\n    return v\n\n\n"
+    loop_src = ("import random\n\n\nclass Err(Exception):\n    pass\n\n\ndef item(i):\n    random.seed(1234)  # every work item starts from its own seed\n"
+                "    return check(i)\n\n\ndef check(i):\n    return random.random() < 2\n\n\ndef loop_seeded(n):\n    for i in range(n):\n        item(i)\n\n\n"
+                "def parse(i):\n    return i\n\n\ndef store(v):\n    return None\n\n\ndef a1(v):\n    return v\n\n\n"
                 "def a2(v):\n    return v\n\n\ndef a3(v):\n    return v\n\n\ndef loop2(n):\n    for i in range(n):\n        store(parse(i))\n\n\n"
                 "def loop5(n):\n    for i in range(n):\n        a3(a2(a1(store(parse(i)))))\n")
     loops = [{"name": f"vfloop18_{ck.seed}_{j}", "seed": f"C18:loop:{j}", "k": 0, "rates": [2, 10], "rng_seeds": [ck.rng("loop", j).randrange(10**6)],
-              "literal": {"source": loop_src, "labels": {q: "must" for q in ("parse", "store", "a1", "a2", "a3", "loop2", "loop5")}, "per_function": True,
-                          "entries": [["call", "loop2(1500)"], ["call", "loop5(1500)"]]}} for j in range(2)]
+              "literal": {"source": loop_src, "labels": {q: "must" for q in ("parse", "store", "a1", "a2", "a3", "loop2", "loop5", "item", "check", "loop_seeded")}, "per_function": True,
+                          "entries": [["call", "loop2(1500)"], ["call", "loop5(1500)"], ["call", "loop_seeded(1500)"]]}} for j in range(2)]
     payloads = [{"programs": pin}] + [{"programs": [lp]} for lp in loops] + [{"programs": sp[i::n]} for i in range(n)]
     for r in core.pmap("vf.props.c18:work", payloads, timeout=3400):
         ck.merge(r)
@@ -172,6 +178,7 @@ def run(ck):
     ck.counters["per_function_fraction_judgements"] = len(perfn)
     ck.need("per_function_fraction_judgements", 6)
     ck.need("prestart_programs", 20)
+    ck.need("completions_on_another_thread", 100, "no generator was finished by a worker thread")
     ck.need("sampled_runs", 500)
     ck.need("unsampled_runs", 200)
     ck.need("sampled_traces_matched", 5000)
